@@ -60,3 +60,54 @@ func PrefixedDigest(name string, L int, prefix ...byte) hashing.Digest {
 	d = append(d, rt.Bytes(name, L-len(prefix))...)
 	return d
 }
+
+// EventHasher wraps the model hasher so that hashing a short single input (an
+// event submitted through the public API) yields a digest with a concrete
+// cache-level prefix (taken from the event's first byte) followed by free
+// symbolic bytes, memoised per event. Hyper-tree navigation then stays
+// concrete for the 24 cache levels; everything else is the model hasher.
+type EventHasher struct {
+	inner hashing.Hasher
+}
+
+var eventDigests = map[string]hashing.Digest{}
+
+func (h *EventHasher) Do(data ...[]byte) hashing.Digest {
+	if len(data) == 1 && len(data[0]) >= 1 && len(data[0]) <= 4 {
+		k := string(data[0])
+		if d, ok := eventDigests[k]; ok {
+			return d
+		}
+		b1 := byte(0)
+		if len(data[0]) > 1 {
+			b1 = data[0][1]
+		}
+		d := PrefixedDigest("event-"+fmtBytes(data[0]), int(h.inner.Len()/8), data[0][0], b1, 0)
+		eventDigests[k] = d
+		return d
+	}
+	return h.inner.Do(data...)
+}
+
+func (h *EventHasher) Salted(salt []byte, data ...[]byte) hashing.Digest {
+	return h.inner.Salted(salt, data...)
+}
+
+func (h *EventHasher) Len() uint16 { return h.inner.Len() }
+
+func fmtBytes(b []byte) string {
+	const hexd = "0123456789abcdef"
+	s := ""
+	for _, c := range b {
+		s += string(hexd[c>>4]) + string(hexd[c&15])
+	}
+	return s
+}
+
+// EventHasherF is the hasher factory handed to nodes under test.
+func EventHasherF(bits uint16) func() hashing.Hasher {
+	return func() hashing.Hasher { return &EventHasher{inner: rt.NewHasher(bits)} }
+}
+
+// ResetEvents clears the memo (call at the start of a harness).
+func ResetEvents() { eventDigests = map[string]hashing.Digest{} }
